@@ -108,6 +108,10 @@ def c11_overwrite(S, fmt, ch, rate, rng, auto):
     if not auto:
         S.add("cmd 0 UPDATE_HEADER_NOW 0")
     S.add("file 2 copy 1", "open 1 vio r 2 %d %d %d" % (fmt if scen.major(fmt) == scen.RAW else 0, ch, rate), "read 1 %s f %d" % (T, N + 3), "close 1")
+    # the writer carries on where it was (a header update must put the file position back), then appends
+    S.add("write 0 %s f 2 gen %s %d %d" % (T, cls, rng.randint(1, 10 ** 6), par))
+    if not auto:
+        S.add("cmd 0 UPDATE_HEADER_NOW 0", "write 0 %s f 1 gen %s %d %d" % (T, cls, rng.randint(1, 10 ** 6), par))
     S.add("seek 0 0 2", "write 0 %s f 3 gen %s %d %d" % (T, cls, rng.randint(1, 10 ** 6), par), "close 0",
           "open 1 vio r 1 %d %d %d" % (fmt if scen.major(fmt) == scen.RAW else 0, ch, rate), "read 1 %s f %d" % (T, N + 6), "close 1")
 
@@ -423,6 +427,8 @@ def c13_scenario(S, fmt, ch, rate, rng, count, ids, payloads, late=False, shortb
     S.add("write 0 %s f 32 gen %s %d %d" % (T, cls, rng.randint(1, 10 ** 6), par))
     if late:
         S.add("setchunk 0 4c415445 6 5", "errq 0")      # after the audio: must be refused or ignored
+        if count % 2 == 1:                               # ... also when the write pointer has been moved back to the start
+            S.add("seek 0 0 0", "setchunk 0 4c415445 6 5", "errq 0", "seek 0 0 2")
     S.add("write 0 %s f 5 gen %s %d %d" % (T, cls, rng.randint(1, 10 ** 6), par), "close 0")
     # expected digests for every (payload, visible bytes) the reader will ask for
     need = set()
